@@ -38,7 +38,9 @@ MARKUP = ['<', '>', '&', '<&>', '&amp;', '&#60;', ']]>', '</a>', '<!--', '-->', 
 QUOTES = ["'", '"', '\'"', '"\'>', "='"]
 LEGAL_WS = ['\t', '\n', '\r', '\r\n']
 ILLEGAL_CTRL = ['\x01', '\x0b', '\x1f', '\x08', '\x0c', '\x1b']
-DLIS_KINDS = ['markup', 'quotes', 'ws', 'ctrl', 'del', 'nonascii', 'mixed']
+DLIS_KINDS = ['markup', 'quotes', 'ws', 'ctrl', 'del', 'nonascii', 'mixed', 'utf8', 'utf8mix']
+UTF8_SEQS = [b'\xc2\xb0', b'\xc3\xa9', b'\xc2\xb5', b'\xd0\x96', b'\xe2\x82\xac', b'\xe2\x80\xa8', b'\xe4\xb8\xad',
+             b'\xf0\x9f\x98\x80', b'\xf0\x90\x80\x80', b'\xc2\x80', b'\xdf\xbf', b'\xef\xbf\xbd']     # valid 2-, 3-, 4-byte sequences
 DLIS_SMALL = ['BASIC_FILE.dlis', 'MINIMAL_FILE.dlis', 'BASIC_FILE_WITH_TWO_VISIBLE_RECORDS_NO_IFLRS.dlis']
 DLIS_BIG = '206_05a-_3_DWL_DWL_WIRE_258276498.DLIS'
 DLIS_DIR, LAS_DIR, LIS_DIR = 'example_data/RP66V1/data', 'example_data/LAS/data', 'example_data/LIS/data'
@@ -109,7 +111,9 @@ def _hostile_bytes(rng, kind, old):
     """A byte string of len(old) that keeps some of `old` and carries hostile bytes of the given kind."""
     pool = {'markup': [s.encode() for s in MARKUP], 'quotes': [s.encode() for s in QUOTES],
             'ws': [s.encode() for s in LEGAL_WS], 'ctrl': [s.encode() for s in ILLEGAL_CTRL], 'del': [b'\x7f'],
-            'nonascii': [b'\x80', b'\xa0', b'\xb0', b'\xb5', b'\xe9', b'\xff']}
+            'nonascii': [b'\x80', b'\xa0', b'\xb0', b'\xb5', b'\xe9', b'\xff'],
+            'utf8': UTF8_SEQS,
+            'utf8mix': UTF8_SEQS + [b'\xc2', b'\xe2\x82', b'\xff', b'\x80', b'\xc0\xaf', b'\xed\xa0\x80', b'a\xc3\xa9\xe9']}
     if kind == 'mixed':
         pool = pool['markup'] + pool['quotes'] + pool['ws'] + pool['del']
     else:
@@ -205,6 +209,10 @@ def _dlis_targets(rel):
 
 def _gen_dlis_case(rng, rel, kind):
     targets = _dlis_targets(rel)
+    if kind in ('utf8', 'utf8mix'):
+        # names / labels / units are decoded as ASCII by the writers (a byte >= 0x80 there raises); the byte-transparent
+        # path is the one of the *values*
+        targets = [t for t in targets if t[0] == 'value' and len(t[1]) >= 4] or targets
     edits, injected, taken = [], [], set()
     for _role, s, offs in rng.sample(targets, min(len(targets), rng.randint(1, 4))):
         new = _hostile_bytes(rng, kind, s)
@@ -550,6 +558,16 @@ def _do_lashtml(ctx, case, work):
                              [[x.replace('\n', '') for x in t] for t in triples])):
         if not _eq(got, want):
             msgs.append(_first_diff(what, got, want))
+    if case.get('text') is not None:
+        # decoding policy of the unchanged code (LASRead.py:791 open(path, 'r', errors='replace')): the file is text in the
+        # locale's preferred encoding, undecodable bytes become U+FFFD; the ~O lines are held stripped, otherwise verbatim
+        import locale
+        src = case['text'].encode('utf-8').decode(locale.getpreferredencoding(False), 'replace').split('\n')
+        if '~Other' in src and '~A' in src:
+            want_o = [l.strip() for l in src[src.index('~Other') + 1:src.index('~A')] if l.strip()]
+            if [str(x) for x in pres] != want_o:
+                msgs.append(_first_diff('~O lines held by the reader vs the file text decoded by the documented policy',
+                                        [str(x) for x in pres], want_o))
     if case.get('text') is not None:   # did the hostile tokens reach the reader at all?
         ctx.count('lashtml_tokens_held_by_reader',
                   sum(1 for t in LAS_TOKENS + LAS_CTRL if t in case['text'] and any(t in s for s in strings)))
@@ -575,7 +593,8 @@ def _run_lashtml(ctx):
 
 _CHARREF_RUN = re.compile(r'(?:[A-Za-z0-9 _.,/+-]|&#\d{3};)*&#0(?:0[0-8]|1[124-9]|2\d|3[01]);(?:[A-Za-z0-9 _.,/+-]|&#\d{3};)*')
 _ILLEGAL_REF = re.compile(r'&#(\d+);')
-LIS_PATCH = {'markup': b'<>&', 'quotes': b'\'"', 'ctrl': b'\x01\x0b\x1f', 'nonascii': b'\xb0\xe9\xff', 'del': b'\x7f'}
+LIS_PATCH = {'markup': [b'<', b'>', b'&'], 'quotes': [b"'", b'"'], 'ctrl': [b'\x01', b'\x0b', b'\x1f'],
+             'nonascii': [b'\xb0', b'\xe9', b'\xff'], 'del': [b'\x7f'], 'utf8': UTF8_SEQS}
 
 
 def _illegal_strings_from_input(text, raw):
@@ -653,14 +672,16 @@ def _run_lishtml(ctx):
     files = sorted(os.listdir(_abs(LIS_DIR)))
     for f in files:
         _do_lishtml(ctx, {'op': 'lishtml', 'file': f'{LIS_DIR}/{f}', 'kind': 'example', 'edits': [], 'injected': []})
-    for i in range(ctx.n(8, 80)):
+    for i in range(ctx.n(12, 120)):
         rel = f'{LIS_DIR}/{files[i % len(files)]}'
         targets, kind = _lis_targets(ctx, rel), sorted(LIS_PATCH)[i % len(LIS_PATCH)]
         edits, injected = [], []
         for off, run in ctx.rng.sample(targets, min(len(targets), ctx.rng.randint(1, 3))):
             new = bytearray(run)
             for _ in range(ctx.rng.randint(1, 2)):
-                new[ctx.rng.randint(1, len(new) - 2)] = ctx.rng.choice(LIS_PATCH[kind])
+                tok = ctx.rng.choice(LIS_PATCH[kind])
+                at = ctx.rng.randint(1, max(1, len(new) - 1 - len(tok)))
+                new[at:at + len(tok)] = tok
             edits.append([off, bytes(new).hex()]); injected.append(bytes(new).decode('latin-1'))
         _do_lishtml(ctx, {'op': 'lishtml', 'file': rel, 'kind': kind, 'edits': sorted(edits), 'injected': injected})
 
@@ -830,7 +851,7 @@ def run(ctx):
     import logging
     logging.disable(logging.CRITICAL)        # the readers log every oddity of a hostile file
     try:
-        cases = list(_dlis_cases(ctx, ctx.n(28, 280)))
+        cases = list(_dlis_cases(ctx, ctx.n(36, 360)))
         _run_indexxml(ctx, cases)
         _run_scanhtml(ctx, cases)
         _run_lashtml(ctx)
